@@ -372,7 +372,7 @@ def _literal_truth(term: str) -> Optional[bool]:
         t, neg = t[4:].strip(), not neg
     if t in ('True', 'False', 'None'):
         return (t != 'True') if neg else (t == 'True')
-    if not t or not (t[0] in '0123456789\'"([{-' or t[:2] in ("b'", 'b"') or t.startswith('len(')):
+    if not t or not (t[0] in '0123456789\'"([{-' or t[:2] in ("b'", 'b"') or t.startswith('len(') or t.startswith('isinstance(')):
         return None
     try:
         v = ast.literal_eval(t)
@@ -407,6 +407,27 @@ def _const_eval(e):
         if type(a) is int and type(b) is int and abs(a) < 1 << 32 and abs(b) < 1 << 32:
             return a + b if isinstance(e.op, ast.Add) else a - b if isinstance(e.op, ast.Sub) else a * b
         raise ValueError
+    if isinstance(e, ast.Compare) and len(e.ops) > 1:
+        # a chain is the conjunction of its links
+        operands = [e.left] + list(e.comparators)
+        return all(_const_eval(ast.Compare(left=operands[i], ops=[e.ops[i]], comparators=[operands[i + 1]])) for i in range(len(e.ops)))
+    if isinstance(e, ast.Call) and isinstance(e.func, ast.Name) and e.func.id == 'isinstance' and len(e.args) == 2 and not e.keywords:
+        # the type of a literal against the built-in types and six's names for them (Python 3)
+        v = _const_eval(e.args[0])
+        names = {'int': (int,), 'six.integer_types': (int,), 'integer_types': (int,), 'str': (str,), 'six.string_types': (str,),
+                 'six.text_type': (str,), 'bytes': (bytes,), 'six.binary_type': (bytes,), 'float': (float,), 'bool': (bool,),
+                 'tuple': (tuple,), 'numbers.Integral': (int,)}
+        t_ = e.args[1]
+        elts = t_.elts if isinstance(t_, ast.Tuple) else [t_]
+        kinds = ()
+        for x in elts:
+            k_ = names.get(ast.unparse(x))
+            if k_ is None:
+                raise ValueError
+            kinds += k_
+        if v is None or isinstance(e.args[0], ast.List):
+            raise ValueError
+        return isinstance(v, kinds)
     if isinstance(e, ast.Compare) and len(e.ops) == 1 and isinstance(e.ops[0], (ast.Lt, ast.LtE, ast.Gt, ast.GtE, ast.Eq, ast.NotEq)):
         a, b = _const_eval(e.left), _const_eval(e.comparators[0])
         if type(a) is not type(b) or type(a) not in (int, str, bytes):
